@@ -12,6 +12,8 @@ T = {
  "C05_b": ("C05","internal/codegen/x86gen_pseudo.go handleDW","operand parsed with ParseUint(...,16): negative or >65535 operands (label differences, negative numbers) become 0","DW -1 or DW with a value outside 0..65535"),
  "C06_a": ("C06","internal/ast/ast_exp_impl.go MultExp.Eval + helper truncDivMod","remainder gets the sign of the quotient instead of the dividend","-7 % 2 or 7 % -2 in a constant expression"),
  "C07_a": ("C07","internal/pass1/traverse.go TraverseAST (OpcodeStmt)","operand-less mnemonics without a pass-1 handler are routed to processNoParam instead of logging 'error: No handler found'; codegen then drops them silently","an operand-less mnemonic that has no handler (e.g. a misspelt or unsupported one)"),
+ "C07_b": ("C07","internal/codegen/x86gen.go GenerateX86","the line that reports a failed ocode is reworded ('error processing ocode ...') and loses its 'error: ' header: colog prints it at info level","any statement whose code generation fails (IN BX,DX; POP CS; OUT 0x300,AL)"),
+ "C07_c": ("C07","internal/pass1/traverse.go TraverseAST (MnemonicStmt)","handler lookup factored into dispatchOpcode(...) bool; the MnemonicStmt branch ignores the result, so 'error: No handler found' is gone for mnemonics with operands","a mnemonic with operands that has no pass-1 handler (XCHG, TEST, LEA, LOOP, MOVZX, ...)"),
  "C08_a": ("C08","internal/filefmt/coff.go convertNameToBytes","the de-duplication map records the content-relative offset (without the 4-byte size field): the second use of the same long name gets an offset 4 too small","two symbols (or one GLOBAL + one EXTERN) with the same name longer than 8 bytes"),
  "C08_b": ("C08","internal/filefmt/coff.go generateSymbolEntries","NumberOfAuxSymbols of .file derived from the [FILE] name length while still one 18-byte record is written: record count and chain are wrong","[FILE] name longer than 18 bytes, WCOFF"),
  "C09_a": ("C09","internal/filefmt/coff.go generateSymbolEntries (sort comparator)","comparator orders by (SectionNumber, Value): undefined symbols (section 0) sort first instead of last","WCOFF with at least one undefined GLOBAL/EXTERN and one defined symbol"),
